@@ -606,19 +606,24 @@ MIRI_FEATURES = {"pure": ["--no-default-features", "--features", "std,pure"],
                  "pure-rayon": ["--no-default-features", "--features", "std,pure,miri_rayon"]}
 
 
-def miri_run(ctx, name, args, shards=16, flavour="pure", miriflags="", timeout=1500, owner=None):
+MIRI_FEATURES["xt"] = ["--no-default-features", "--features", "std,pure,refimpl"]
+
+
+def miri_run(ctx, name, args, shards=16, flavour="pure", miriflags="", timeout=1500, owner=None, target=None, adopt=None):
     """Run `mon <args>` under Miri as `shards` processes. A UB/data-race report whose stack has a
     frame under /repo is a violation of `owner` (default ctx.pid); one confined to third-party
     crates is inconclusive; one in the harness itself is a harness error."""
     owner = owner or ctx.pid
-    tdir = os.path.join(TARGET, "miri")
+    tdir = os.path.join(TARGET, "miri" if not target else "miri-" + target.split("-")[0])
     env = env_base()
-    env["RUSTFLAGS"] = "--cfg %s -Ctarget-feature=+sse4.1,+avx2" % GUARD
+    # foreign targets are interpreted as they are (no x86 target features)
+    env["RUSTFLAGS"] = ("--cfg %s -Ctarget-feature=+sse4.1,+avx2" % GUARD) if not target else ("--cfg %s" % GUARD)
     env["MIRIFLAGS"] = ("-Zmiri-disable-isolation " + miriflags).strip()
-    base = ["cargo", "+nightly", "miri", "run", "--offline", "-q", "-p", "mon", "--target-dir", tdir] + MIRI_FEATURES[flavour] + ["--"]
+    base = ["cargo", "+nightly", "miri", "run", "--offline", "-q", "-p", "mon", "--target-dir", tdir] + MIRI_FEATURES[flavour] + \
+           (["--target", target] if target else []) + ["--"]
     env0 = dict(env)
     env0["MIRIFLAGS"] = env["MIRIFLAGS"].replace("{shard}", "0")
-    rc, out, to = run(base + ["selftest"], cwd=HARNESS, env=env0, timeout=1800)
+    rc, out, to = run(base + ["selftest"], cwd=HARNESS, env=env0, timeout=2700)
     if rc != 0:
         ctx.note_inconclusive("%s: Miri unavailable or build failed: %s" % (name, out[-400:]))
         return
@@ -653,7 +658,7 @@ def miri_run(ctx, name, args, shards=16, flavour="pure", miriflags="", timeout=1
             ctx.note_inconclusive("%s shard %d: Miri watchdog fired" % (name, i))
             step["verdict"] = "inconclusive"
         elif rc == 0 and rep is not None:
-            ctx.fold("%s#%d" % (name, i), "miri-" + flavour, "miri", rep, must_observe=False)
+            ctx.fold("%s#%d" % (name, i), "miri-" + flavour, "miri", rep, must_observe=False, adopt=adopt)
             step["evaluations"] = rep["evaluations"]
             step["verdict"] = "held"
         elif "Undefined Behavior" in out or "Data race" in out or "error: unsupported operation" in out:
